@@ -10,6 +10,12 @@ using namespace Qentem;
 #ifndef ASC
 #define ASC 1
 #endif
+#ifndef PROP
+#define PROP 3      // 1 = ordered, 2 = permutation, 3 = both in one query
+#endif
+#ifndef RANGE
+#define RANGE 0     // int elements: 0 = all 2^32 values, r = values in [-r, r] (Sort only compares, so order types are what matters)
+#endif
 
 struct MKey { char d[2]; unsigned n; };
 static bool mk_eq(const MKey &a, const MKey &b) { return a.n == b.n && a.d[0] == b.d[0] && a.d[1] == b.d[1]; }
@@ -41,15 +47,15 @@ static MKey from_key(const Key2 &k) {
 extern "C" void h_sort_int() {
     int *a = vf_buf<int>(N + 2);
     int  in[N + 2];
-    for (unsigned i = 0; i < N + 2; ++i) in[i] = a[i];
+    for (unsigned i = 0; i < N + 2; ++i) { if (RANGE) vf_assume(a[i] >= -RANGE && a[i] <= RANGE); in[i] = a[i]; }
     Memory::Sort<(ASC != 0)>(a, SizeT{1}, SizeT{N + 1});
     vf_assert(a[0] == in[0] && a[N + 1] == in[N + 1], 1);
     unsigned i = vf_u32();
-    if (i < N - 1) vf_assert(ASC ? (a[1 + i] <= a[2 + i]) : (a[1 + i] >= a[2 + i]), 2);      // ordered
+    if ((PROP & 1) && i < N - 1) vf_assert(ASC ? (a[1 + i] <= a[2 + i]) : (a[1 + i] >= a[2 + i]), 2);      // ordered
     int      x = (int)vf_u32();
     unsigned ci = 0, co = 0;
     for (unsigned j = 1; j <= N; ++j) { if (in[j] == x) ++ci; if (a[j] == x) ++co; }
-    vf_assert(ci == co, 3);                                                                   // permutation
+    if (PROP & 2) vf_assert(ci == co, 3);                                                     // permutation
     vf_witness();
 }
 
@@ -63,13 +69,13 @@ extern "C" void h_sort_key() {
     if (i < N - 1) {
         MKey l = from_key(a[i]), r = from_key(a[i + 1]);
         int  c = ref_cmp(l, r);
-        vf_assert(ASC ? (c <= 0) : (c >= 0), 2);                                              // ordered (reference order)
-        vf_assert(ASC ? !(a[i + 1] < a[i]) : !(a[i + 1] > a[i]), 4);                          // and under the type's own relation
+        if (PROP & 1) vf_assert(ASC ? (c <= 0) : (c >= 0), 2);                                // ordered (reference order)
+        if (PROP & 1) vf_assert(ASC ? !(a[i + 1] < a[i]) : !(a[i + 1] > a[i]), 4);            // and under the type's own relation
     }
     MKey     x = sym_key();
     unsigned ci = 0, co = 0;
     for (unsigned j = 0; j < N; ++j) { MKey o = from_key(a[j]); if (mk_eq(in[j], x)) ++ci; if (mk_eq(o, x)) ++co; }
-    vf_assert(ci == co, 3);                                                                   // permutation
+    if (PROP & 2) vf_assert(ci == co, 3);                                                     // permutation
     vf_witness();
 }
 
@@ -77,16 +83,16 @@ extern "C" void h_sort_key() {
 extern "C" void h_array_sort() {
     Array<int> arr(SizeT{N});
     int        in[N];
-    for (unsigned i = 0; i < N; ++i) { in[i] = (int)vf_u32(); arr += int(in[i]); }
+    for (unsigned i = 0; i < N; ++i) { in[i] = (int)vf_u32(); if (RANGE) vf_assume(in[i] >= -RANGE && in[i] <= RANGE); arr += int(in[i]); }
     vf_assert(arr.Size() == N, 1);
     arr.Sort(ASC != 0);
     vf_assert(arr.Size() == N, 5);
     const int *a = arr.First();
     unsigned   i = vf_u32();
-    if (i < N - 1) vf_assert(ASC ? (a[i] <= a[i + 1]) : (a[i] >= a[i + 1]), 2);
+    if ((PROP & 1) && i < N - 1) vf_assert(ASC ? (a[i] <= a[i + 1]) : (a[i] >= a[i + 1]), 2);
     int      x = (int)vf_u32();
     unsigned ci = 0, co = 0;
     for (unsigned j = 0; j < N; ++j) { if (in[j] == x) ++ci; if (a[j] == x) ++co; }
-    vf_assert(ci == co, 3);
+    if (PROP & 2) vf_assert(ci == co, 3);
     vf_witness();
 }
